@@ -26,6 +26,7 @@ type Clause struct {
 	Line int
 	Name string // generated function name in the overlay (requires/ensures)
 	ID   string // known-finding id
+	IsLoop bool
 }
 
 type Block struct {
@@ -42,6 +43,7 @@ type Block struct {
 	Body    string // spec func body text (Go), including braces
 	Props   []string
 	Opaque  bool
+	Ghosts  [][2]string   // universally quantified postcondition variables (name, type)
 	decl    *ast.FuncDecl // parsed header
 }
 
@@ -54,8 +56,8 @@ func (b *Block) Key() string {
 
 func (b *Block) QName() string { return b.PkgName + "." + b.Key() }
 
-var clauseKW = []string{"requires", "ensures", "loop", "split", "opaque", "prop", "decreases", "modifies", "assume", "inline", "nooverlay", "unsafe-ok", "havoc", "using", "trusted", "known"}
-var blockKW = []string{"spec func", "lemma", "func", "assume-dep", "iface", "ghost"}
+var clauseKW = []string{"requires", "ensures", "loop", "split", "opaque", "prop", "decreases", "modifies", "assume", "inline", "nooverlay", "unsafe-ok", "havoc", "using", "trusted", "known", "reveal", "forall", "use"}
+var blockKW = []string{"opaque spec func", "spec func", "lemma", "func", "assume-dep", "iface", "ghost"}
 
 func startsWithKW(s string, kws []string) string {
 	for _, k := range kws {
@@ -115,8 +117,9 @@ func ParseContractFile(path, pkgPath string) ([]*Block, error) {
 			blocks = append(blocks, cur)
 			rest := strings.TrimSpace(strings.TrimPrefix(ct, kw))
 			switch kw {
-			case "spec func":
+			case "opaque spec func", "spec func":
 				cur.Kind = "spec"
+				cur.Opaque = kw == "opaque spec func"
 				if strings.HasSuffix(rest, "{") {
 					cur.Header = strings.TrimSpace(strings.TrimSuffix(rest, "{"))
 					cur.Body = "{\n"
@@ -152,21 +155,28 @@ func ParseContractFile(path, pkgPath string) ([]*Block, error) {
 		if cur == nil {
 			return nil, fmt.Errorf("%s:%d: clause outside block: %q", path, ln, ct)
 		}
-		if kw := startsWithKW(ct, clauseKW); kw != "" {
+		if kw := startsWithKW(ct, clauseKW); kw != "" && !(kw == "forall" && strings.Contains(ct, "::")) {
 			rest := strings.TrimSpace(strings.TrimPrefix(ct, kw))
 			curClause = &Clause{Kind: kw, Text: rest, Line: ln}
 			switch kw {
 			case "loop":
 				// loop K: invariant E | unroll N | decreases E
-				m := regexp.MustCompile(`^(\d+)\s*:\s*(invariant|unroll|decreases|havoc)\s*(.*)$`).FindStringSubmatch(rest)
+				m := regexp.MustCompile(`^(\d+)\s*:\s*(invariant|unroll|decreases|havoc|use)\s*(.*)$`).FindStringSubmatch(rest)
 				if m == nil {
 					return nil, fmt.Errorf("%s:%d: bad loop clause %q", path, ln, rest)
 				}
 				curClause.Loop, _ = strconv.Atoi(m[1])
 				curClause.Kind = m[2]
 				curClause.Text = m[3]
+				curClause.IsLoop = true
 			case "opaque":
 				cur.Opaque = true
+			case "forall":
+				f := strings.Fields(rest)
+				if len(f) != 2 {
+					return nil, fmt.Errorf("%s:%d: forall clause wants 'name Type'", path, ln)
+				}
+				cur.Ghosts = append(cur.Ghosts, [2]string{f[0], f[1]})
 			case "prop":
 				for _, p := range strings.FieldsFunc(rest, func(r rune) bool { return r == ',' || r == ' ' }) {
 					cur.Props = append(cur.Props, p)
@@ -197,6 +207,27 @@ func ParseContractFile(path, pkgPath string) ([]*Block, error) {
 				}
 				c.ID = strings.TrimSpace(c.Text[:idx])
 				g, err := RewriteSpecExpr(c.Text[idx+1:])
+				if err != nil {
+					return nil, fmt.Errorf("%s:%d: %v", b.File, c.Line, err)
+				}
+				c.Go = g
+			case "use":
+				if c.Loop >= 0 && c.IsLoop {
+					// handled below (same syntax)
+				}
+				// use [forall x T in lo..hi ::] lemmaName(args)
+				txt := strings.TrimSpace(c.Text)
+				pre := ""
+				if idx := strings.Index(txt, "::"); idx >= 0 && (strings.HasPrefix(txt, "forall ")) {
+					pre = txt[:idx+2] + " "
+					txt = strings.TrimSpace(txt[idx+2:])
+				}
+				par := strings.Index(txt, "(")
+				if par <= 0 {
+					return nil, fmt.Errorf("%s:%d: use clause wants lemmaName(args)", b.File, c.Line)
+				}
+				c.ID = strings.TrimSpace(txt[:par])
+				g, err := RewriteSpecExpr(pre + "lemma_" + c.ID + "__holds" + txt[par:])
 				if err != nil {
 					return nil, fmt.Errorf("%s:%d: %v", b.File, c.Line, err)
 				}
@@ -493,6 +524,9 @@ func existsRange[T specInteger](lo, hi T, f func(T) bool) bool {
 
 func old[T any](x T) T { return x }
 
+// unfold(f(args)) is f(args); the verifier additionally learns f's defining equation at args.
+func unfold[T any](x T) T { return x }
+
 func ite[T any](c bool, a, b T) T {
 	if c {
 		return a
@@ -596,9 +630,16 @@ func GenOverlay(pkgName string, blocks []*Block, extraImports []string) string {
 			if b.Kind == "lemma" {
 				prefix = "lemma_" + b.Name + "__"
 			}
-			nreq, nens, nkn := 0, 0, 0
+			nreq, nens, nkn, nuse := 0, 0, 0, 0
 			for _, c := range b.Clauses {
 				switch c.Kind {
+				case "use":
+					if c.IsLoop {
+						continue
+					}
+					c.Name = fmt.Sprintf("%suse%d", prefix, nuse)
+					nuse++
+					fmt.Fprintf(&sb, "\nfunc %s %s(%s) bool {\n\treturn %s\n}\n", recv, c.Name, params, c.Go)
 				case "known":
 					c.Name = fmt.Sprintf("%sknown%d", prefix, nkn)
 					nkn++
@@ -617,8 +658,41 @@ func GenOverlay(pkgName string, blocks []*Block, extraImports []string) string {
 						}
 						all += results
 					}
+					for _, g := range b.Ghosts {
+						if all != "" {
+							all += ", "
+						}
+						all += g[0] + " " + g[1]
+					}
 					fmt.Fprintf(&sb, "\nfunc %s %s(%s) bool {\n\treturn %s\n}\n", recv, c.Name, all, c.Go)
 				}
+			}
+			if b.Kind == "lemma" {
+				// lemma_X__holds: the statement of the lemma as a predicate (for `use` clauses)
+				var pre, post []string
+				names := strings.Join(b.ParamNames(), ", ")
+				for _, c := range b.Clauses {
+					switch c.Kind {
+					case "requires":
+						pre = append(pre, fmt.Sprintf("%s(%s)", c.Name, names))
+					case "known":
+						pre = append(pre, fmt.Sprintf("!%s(%s)", c.Name, names))
+					case "ensures":
+						post = append(post, fmt.Sprintf("%s(%s)", c.Name, names))
+					}
+				}
+				// a lemma proved by case split holds only inside the split ranges
+				for _, c := range b.Clauses {
+					if c.Kind == "split" {
+						if m := splitRe.FindStringSubmatch(strings.TrimSpace(c.Text)); m != nil {
+							pre = append(pre, fmt.Sprintf("(%s >= %s && %s <= %s)", m[1], m[2], m[1], m[3]))
+						}
+					}
+				}
+				if len(pre) == 0 {
+					pre = []string{"true"}
+				}
+				fmt.Fprintf(&sb, "\nfunc lemma_%s__holds(%s) bool {\n\treturn !(%s) || (%s)\n}\n", b.Name, params, strings.Join(pre, " && "), strings.Join(post, " && "))
 			}
 		}
 	}
